@@ -96,6 +96,7 @@ class C03(Prop):
             'of the next real leaf value. Non-trivial: a token spans >=2 lines, or text has CR/BOM/non-Python separator, '
             'or a zero-width error leaf exists.')
     assumptions = ['reading of zero-width indentation leaves fixed in DESIGN §2 C03 / §4.1']
+    fuzz = True       # thorough/quick runs add an atheris sub-tier with this check as the in-target oracle
     budgets = {'quick': 24000, 'thorough': 640000}
 
     def strategy(self, tier):
